@@ -218,6 +218,7 @@ func propC10() *harness.Prop {
 		Rule:           "rtcmfilter.HandleMessages (the shipped function, in-package harness) under the controlled scheduler with harness-owned stdout, record and display writers whose every Write is a scheduling point. Schedule dimension: 9 small streams x {display,record} in {0,1}^2 x every interleaving of main, reader, framing, fan-out and 1-3 writer goroutines and every source chunking (state-key pruning; deviation bound 1/2 where the unbounded pass is cut). Input dimension: every sequence of <=2 (quick) / <=3 (thorough) segments from a 19-entry menu (valid frames, NMEA, UBX, junk with 0xD3, lone D3, bad leaders, truncations, corrupted frames) with display and record on, default schedule. plus scenarios in which single writes to the display log fail, and a stalled-writer scenario (24 distinct frames, the output writer blocks in its first Write until a timer thread lets it go, by default as late as possible), and scenarios in which the input ends in a hard read error instead of EOF, with attentive and with stalled writers (every frame read before the failure is still owed), and scenarios with a non-zero EOF tolerance configured and a source that reports EOF twice between frames or inside a frame and then carries on. Oracle at quiescence: stdout == concatenation of the valid frames of the sequential framing, record identical, display text == one String() entry per delivered message. Non-trivial = distinct schedule trace",
 		Assumptions:    []string{"dailylogger.New is redirected at build time to an in-memory sink (file naming and rotation belong to the go-tools dependency)", "which segments are 'valid frames as delimited by the framing rules' is decided by the independent reference segmenter /verif/ref (C03 ties the implementation's framing to it); the readable log is compared with the implementation's own display of its sequential framing", "judged at quiescence; whether the output is complete when the call returns is C11"},
 		Scenarios:      scenariosC10,
+		Post:           func(r *harness.EvRun) { realBinary(r, "C10") },
 		QuickBudget:    60 * time.Second,
 		ThoroughBudget: 10 * time.Minute,
 	}
@@ -419,6 +420,7 @@ func propC11() *harness.Prop {
 		Rule:           "the shipped HandleMessages of rtcmfilter and of displayrtcm3 (in-package harnesses) under the controlled scheduler; the output writer's Write is a scheduling point (a slow writer is a writer goroutine that is not scheduled) and in half the scenarios each Write happens in two steps; streams with 1, 2 and 3 messages x optional logs on/off x all interleavings (state-key pruning) and deviation bounds 0..2. Oracle evaluated at the instant the call returns on the calling thread: the writer holds the complete expected output. Non-trivial = distinct schedule trace",
 		Assumptions:    []string{"only the writer passed to the entry point is judged", "expected output = what the implementation produces for the same bytes when framed sequentially (rtcmfilter: valid frames; displayrtcm3: heading + one String() per message)"},
 		Scenarios:      scenariosC11,
+		Post:           func(r *harness.EvRun) { realBinary(r, "C11") },
 		QuickBudget:    60 * time.Second,
 		ThoroughBudget: 10 * time.Minute,
 	}
@@ -504,3 +506,75 @@ func scenariosC11(tier string) []*mcrt.Scenario {
 }
 
 var _ = props.SequentialFraming
+
+// realBinary: the shipped rtcmfilter from main() on - flags, JSON config, real
+// pipes and files - for each log configuration.  What is on standard output and
+// in the day's files once the process has exited is compared with the valid
+// frames of the input (C10) - which is also "nothing lost when the program
+// exits right after the call returns" (C11).
+func realBinary(r *harness.EvRun, id string) {
+	streams, names := smallStreams()
+	type in struct {
+		name string
+		data []byte
+	}
+	var inputs []in
+	for _, n := range names {
+		inputs = append(inputs, in{n, streams[n]})
+	}
+	var many []byte
+	for i := 0; i < 300; i++ {
+		many = append(many, ref.TypedFrame(1001+i%60, 2+i%3, func(k int) byte { return byte(8*i + k) })...)
+		if i%7 == 0 {
+			many = append(many, []byte("$GPGGA,junk\r\n")...)
+		}
+	}
+	inputs = append(inputs, in{"300-frames+nmea", many}, in{"70001B", bigStream(70001)}, in{"empty", nil})
+	var cases []harness.RealCase
+	for _, inp := range inputs {
+		for _, d := range []bool{false, true} {
+			for _, rec := range []bool{false, true} {
+				inp, d, rec := inp, d, rec
+				if len(inp.data) > 1000 && d != rec {
+					continue
+				}
+				want := expectedFrames(inp.data)
+				_, wantText, nmsg, _ := expected(inp.data)
+				cfg := fmt.Sprintf(`{"display_messages": %v, "record_messages": %v, "log_directory": "%%DIR%%/logs"}`, d, rec)
+				cases = append(cases, harness.RealCase{
+					Name: fmt.Sprintf("rtcmfilter -c config input=%s display=%v record=%v", inp.name, d, rec),
+					Args: []string{"-c", "%DIR%/config.json"}, Files: map[string]string{"config.json": cfg}, Stdin: inp.data,
+					Check: func(stdout []byte, dir string, exit error) (string, string) {
+						if !bytes.Equal(stdout, want) {
+							return "output-is-not-the-valid-frames-in-order", fmt.Sprintf("%d bytes on standard output, %d bytes of valid frames in the input (exit: %v)", len(stdout), len(want), exit)
+						}
+						var recBytes, txt []byte
+						ents, _ := os.ReadDir(dir + "/logs")
+						for _, e := range ents {
+							b, _ := os.ReadFile(dir + "/logs/" + e.Name())
+							switch {
+							case strings.HasPrefix(e.Name(), "rtcmfilter.") && strings.HasSuffix(e.Name(), ".rtcm"):
+								recBytes = append(recBytes, b...)
+							case strings.HasPrefix(e.Name(), "rtcm.") && strings.HasSuffix(e.Name(), ".txt"):
+								txt = append(txt, b...)
+							}
+						}
+						if rec && !bytes.Equal(recBytes, want) {
+							return "record-differs-from-output", fmt.Sprintf("record file holds %d bytes, output %d", len(recBytes), len(want))
+						}
+						if !rec && len(recBytes) > 0 {
+							return "record-written-although-recording-is-off", fmt.Sprintf("%d bytes", len(recBytes))
+						}
+						if d && strings.Count(string(txt), "Frame length") != strings.Count(wantText, "Frame length") {
+							return "readable-log-does-not-have-one-entry-per-message", fmt.Sprintf("%d entries for %d messages", strings.Count(string(txt), "Frame length"), nmsg)
+						}
+						if !d && len(txt) > 0 {
+							return "readable-log-written-although-display-is-off", fmt.Sprintf("%d bytes", len(txt))
+						}
+						return "", ""
+					}})
+			}
+		}
+	}
+	harness.RealBinary(r, id, "MC_REAL_BIN_rtcmfilter", cases)
+}
